@@ -558,6 +558,34 @@ pub fn stabilize_with_rules(s: &str) -> R {
     })
 }
 
+/// stabilize driven by synthetic rule functions over the given string: kind 0 appends a character on every
+/// application (never stable), 1 strips one leading character per application, 2 alternates between two strings,
+/// 3 fails on the k-th application, 4 maps everything to the empty string, 5 returns a borrowed suffix
+pub fn stabilize_synthetic(s: &str, kind: u8, k: usize) -> R {
+    use std::cell::Cell;
+    let n = Cell::new(0usize);
+    stabilize(s, |x: &str| {
+        n.set(n.get() + 1);
+        match kind {
+            0 => Ok(Cow::Owned(format!("{}\u{E9}", x))),
+            1 => Ok(match x.chars().next() {
+                Some(c) => Cow::Borrowed(&x[c.len_utf8()..]),
+                None => Cow::Borrowed(x),
+            }),
+            2 => Ok(if x.ends_with('!') { Cow::Owned(x.trim_end_matches('!').to_string()) } else { Cow::Owned(format!("{}!", x)) }),
+            3 => {
+                if n.get() >= k {
+                    Err(Error::BadCodepoint(precis_core::CodepointInfo::new(0x23, n.get(), DerivedPropertyValue::Disallowed)))
+                } else {
+                    Ok(Cow::Owned(format!("{}x", x)))
+                }
+            }
+            4 => Ok(Cow::Borrowed("")),
+            _ => Ok(Cow::Borrowed(x.trim_start_matches('.'))),
+        }
+    })
+}
+
 /// Codepoints comparisons / Display on arbitrary values
 pub fn codepoints_probe(a: u32, b: u32, cp: u32) -> Out<usize> {
     use precis_core::Codepoints;
